@@ -1,4 +1,62 @@
-(** C05 — property theorems (placeholder while the check is brought up). *)
-From SV Require Import CfgState.Model CfgState.Gen CfgState.GenSteps.
-Theorem gen_atomic : forall k, atomic (steps_of k) = true.
-Proof. intros []; vm_compute; reflexivity. Qed.
+(** C05 — a configuration survives every save / replay path unchanged.
+    Property theorems (statements only; proofs are in CfgState/ReplayProofs.v). *)
+From stdpp Require Import gmap strings.
+From Coq Require Import NArith.
+From SV Require Import CfgState.Model CfgState.Spec CfgState.Gen CfgState.GenSteps CfgState.ReplayProofs.
+Open Scope N_scope.
+
+(** Full statement (NOT proved at full strength; claimed partial):
+      replay_generate : Inv s ->
+        replay (generate_requests s) empty_state = (s', 0) /\ norm s' = norm s
+    for every reachable s.  Proved below: the statement with exact equality for
+    every state whose bucket sections (backends, tcp/udp frontends,
+    certificates) are empty — all four listener kinds with activation,
+    clusters with health checks, http and https frontends —, and
+    order-independence of each of those sections.  The bucket sections are
+    covered by the correspondence runs (all four replay paths on the real
+    code) only. *)
+Theorem replay_generate_partial :
+  forall fingerprint inames hc_valid steps s,
+    Inv5 hc_valid s -> no_buckets s ->
+    replay fingerprint inames hc_valid steps (generate_requests s) empty_state = (s, 0%nat).
+Proof. intros. apply ReplayProofs.replay_generate_partial; assumption. Qed.
+
+(** Replay never depends on map iteration order: each map-backed section,
+    replayed as ANY permutation of its entries on an instance where that
+    section is empty, is accepted entirely and rebuilds exactly that map. *)
+Theorem replay_order_free :
+  forall fingerprint inames hc_valid steps s,
+    (forall k m l, get_l k s = ∅ -> l ≡ₚ map_to_list m ->
+       replay fingerprint inames hc_valid steps
+              (flat_map (fun al : N * listener =>
+                           RAddListener k (fst al) (snd al)
+                           :: (if l_active (snd al) then [RActivate (proxy_of k) (fst al)] else [])) l) s
+       = (set_l k s m, 0%nat))
+    /\ (forall m l, clusters s = ∅ -> l ≡ₚ map_to_list m ->
+          (forall i c v, m !! i = Some c -> c_hc c = Some v -> hc_valid v = true) ->
+          replay fingerprint inames hc_valid steps (map (fun ic : N * cluster => RAddCluster (fst ic) (snd ic)) l) s
+          = (set_clusters s m, 0%nat))
+    /\ (forall tls m l, get_f tls s = ∅ -> l ≡ₚ map_to_list m ->
+          (forall k f, m !! k = Some f -> k = front_key f /\ (f_pos f <? 3) = true) ->
+          replay fingerprint inames hc_valid steps (map (fun kf : fkey * front => RAddFront tls (snd kf)) l) s
+          = (set_f tls s m, 0%nat)).
+Proof. intros. apply section_order_free. Qed.
+
+(** replay distributes over the section order of generate_requests *)
+Theorem replay_concat :
+  forall fingerprint inames hc_valid steps l1 l2 s,
+    replay fingerprint inames hc_valid steps (l1 ++ l2) s =
+    let '(s1, n1) := replay fingerprint inames hc_valid steps l1 s in
+    let '(s2, n2) := replay fingerprint inames hc_valid steps l2 s1 in (s2, (n1 + n2)%nat).
+Proof. intros. apply replay_app. Qed.
+
+(** non-vacuity: a state with an active listener, a cluster with a health check
+    and a frontend satisfies the hypotheses and is rebuilt *)
+Example replay_generate_nonvacuous :
+  let fp := fun _ : N => @None N in
+  let nm := fun _ : N => @None (list N) in
+  let hc := fun v : N => v <? 3 in
+  let s := State (<[1 := Cluster (Some 2) 7]> ∅) ∅ (<[0 := Listener true (<["front_timeout"%string := 60]> ∅) 1]> ∅) ∅ ∅ ∅
+                 (<[front_key (Front 0 1 0 2 None (Some 1) 2 5) := Front 0 1 0 2 None (Some 1) 2 5]> ∅) ∅ ∅ ∅ ∅ in
+  bool_decide (replay fp nm hc steps_of (generate_requests s) empty_state = (s, 0%nat)) = true.
+Proof. vm_compute. reflexivity. Qed.
